@@ -142,12 +142,21 @@ HeapMlock(h) ==
           /\ regs' = [regs EXCEPT ![h].wrap = "Prot", ![h].lm = "Locked"]
           /\ released' = released
 
+(* ---- what the safe API offers in each type state (the guards of the actions below; C20) ---- *)
+OffersLock(r)        == r.alive /\ r.wrap = "Prot" /\ r.lm = "Unlocked"
+OffersUnlock(r)      == r.alive /\ r.wrap = "Prot"
+OffersProtect(r, pm) == r.alive /\ r.wrap = "Prot" /\ (pm = "NA" => r.lm = "Unlocked")   \* ProtectNoAccess: unlocked regions only
+OffersReadView(r)    == r.alive /\ (r.wrap = "Plain" \/ r.pm # "NA")
+OffersMutView(r)     == r.alive /\ (r.wrap = "Plain" \/ r.pm = "RW")
+OffersClone(r)       == r.alive /\ (r.wrap = "Plain" \/ (r.pm # "NA" /\ (r.lm = "Locked" => r.kind = "Resizable")))
+OffersResize(r)      == r.alive /\ r.kind = "Resizable" /\ (r.wrap = "Plain" \/ r.pm = "RW")
+
 (* ---- type-state transitions (each consumes the handle and returns it retyped) ------------ *)
 IsProt(h) == regs[h].alive /\ regs[h].wrap = "Prot"
 
 Lock(h) ==
   /\ Step(<<"mlock", h>>)
-  /\ IsProt(h) /\ regs[h].lm = "Unlocked"
+  /\ OffersLock(regs[h])
   /\ LET r == regs[h] IN
      IF ~LockOk(r.len) \/ AnyNone(allocs, r.a, r.len)
      THEN \* refused by the OS, or the range is inaccessible (mlock cannot fault the pages in):
@@ -162,15 +171,14 @@ Lock(h) ==
 
 Unlock(h) ==
   /\ Step(<<"munlock", h>>)
-  /\ IsProt(h)
+  /\ OffersUnlock(regs[h])
   /\ allocs' = KLock(allocs, regs[h].a, regs[h].len, FALSE)
   /\ regs' = [regs EXCEPT ![h].lm = "Unlocked"]
   /\ res' = "Ok" /\ UNCHANGED <<released, budget>>
 
 Protect(h, pm) ==
   /\ Step(<<"mprotect", h, pm>>)
-  /\ IsProt(h)
-  /\ (pm = "NA" => regs[h].lm = "Unlocked")       \* ProtectNoAccess is implemented for unlocked regions only
+  /\ OffersProtect(regs[h], pm)
   /\ allocs' = KProt(allocs, regs[h].a, regs[h].len, ProtOf(pm))
   /\ regs' = [regs EXCEPT ![h].pm = pm]
   /\ res' = "Ok" /\ UNCHANGED <<released, budget>>
@@ -183,7 +191,7 @@ Drop(h) ==
   /\ res' = "Ok" /\ UNCHANGED budget
 
 (* ---- clone ------------------------------------------------------------------ *)
-CanClone(r) == r.alive /\ (r.wrap = "Plain" \/ (r.pm # "NA" /\ (r.lm = "Locked" => r.kind = "Resizable")))
+CanClone(r) == OffersClone(r)
 
 Clone(h, g) ==
   /\ Step(<<"clone", h, g>>)
@@ -207,7 +215,7 @@ Clone(h, g) ==
              /\ released' = released
 
 (* ---- resize (resizable container, writable) ---------------------------------- *)
-CanResize(r) == r.alive /\ r.kind = "Resizable" /\ (r.wrap = "Plain" \/ r.pm = "RW")
+CanResize(r) == OffersResize(r)
 
 Resize(h, newlen) ==
   /\ Step(<<"resize", h, newlen>>)
@@ -241,12 +249,18 @@ Resize(h, newlen) ==
 \* write the test pattern over the whole region (needs a mutable view)
 Fill(h) ==
   /\ Step(<<"fill", h>>)
-  /\ regs[h].alive /\ (regs[h].wrap = "Plain" \/ regs[h].pm = "RW") /\ regs[h].plen # regs[h].len
+  /\ OffersMutView(regs[h]) /\ regs[h].plen # regs[h].len
   /\ regs' = [regs EXCEPT ![h].plen = regs[h].len]
   /\ res' = "Ok" /\ UNCHANGED <<allocs, released, budget>>
 
+\* read the bytes through a shared view (as_slice / Deref / index / as_array)
+ReadView(h) ==
+  /\ Step(<<"view", h>>)
+  /\ OffersReadView(regs[h])
+  /\ res' = "Ok" /\ UNCHANGED <<regs, allocs, released, budget>>
+
 Next == \/ \E h \in Handles, fm \in Forms, k \in {"Fixed", "Resizable"}, l \in Lens : Ctor(h, fm, k, l)
-        \/ \E h \in Handles : HeapMlock(h) \/ Lock(h) \/ Unlock(h) \/ Drop(h) \/ Fill(h)
+        \/ \E h \in Handles : HeapMlock(h) \/ Lock(h) \/ Unlock(h) \/ Drop(h) \/ Fill(h) \/ ReadView(h)
         \/ \E h \in Handles, pm \in {"RW", "RO", "NA"} : Protect(h, pm)
         \/ \E h, g \in Handles : Clone(h, g)
         \/ \E h \in Handles, l \in Lens : Resize(h, l)
